@@ -358,3 +358,28 @@ func lastOps(tr []TraceOp, k, n int) string {
 	}
 	return strings.Join(s, " | ")
 }
+
+// TraceOf runs the scenario drawn from tape once, fault-free, with the given GOMAXPROCS and
+// returns its operation trace as text (simulator self-test).
+func TraceOf(r *Runner, base string, tape *sim.Tape, procs int) (string, error) {
+	c := GenCase(tape, false)
+	sched, stick := drawSchedule(tape)
+	work, err := NewWork(base)
+	if err != nil {
+		return "", err
+	}
+	defer os.RemoveAll(work)
+	if err := c.Tree.Materialise(filepath.Join(work, "root")); err != nil {
+		return "", err
+	}
+	r2 := &Runner{Bin: r.Bin, Procs: procs}
+	co, err := r2.Run(work, c.Inv, &Plan{Tape: sched, Stick: stick, CrashAt: -1, TornAt: -1})
+	if err != nil {
+		return "", err
+	}
+	var sb strings.Builder
+	for _, op := range co.Trace {
+		fmt.Fprintf(&sb, "%d %s %d %s\n", op.Seq, op.Op, op.N, op.Err)
+	}
+	return sb.String(), nil
+}
